@@ -18,7 +18,7 @@ def pad(t, ch):
 def judge(case, drv):
     fspec = case['fspec']
     try:
-        font = fontsynth.build_font(dict(c18.spec_of(fspec), scripts=case.get('scripts', [])))
+        font = fontsynth.build_font(dict(c18.spec_of(fspec), scripts=case.get('scripts', []), silf_subtables=case.get('silf_subtables', 1)))
     except (ValueError, struct.error, OverflowError):
         raise Inconclusive()
     fid = drv.put_font(font)
@@ -43,7 +43,9 @@ def judge(case, drv):
                     raise Violation('padded-tag-selects-differently:' + kind, case, 'tag %r zero-padded=%s space-padded=%s' % (t, res[(kind, t, b'\0')], res[(kind, t, b' ')]))
         # script tags: gr_make_seg and gr_face_info
         txt = encode_text([0x61, 0x62, 0x61], 4)
-        for t in tags:
+        # script tags include the empty string: zero padded it is 0, space padded it is four spaces (seed S9-C20: with more than one Silf
+        # sub-table a half-implemented script choice told them apart in gr_face_info / gr_face_is_char_supported)
+        for t in tags + [b'']:
             dumps, infos = [], []
             for ch in (b'\0', b' '):
                 v = pad(t, ch)
@@ -88,7 +90,7 @@ def worker(ctx):
                 f = fs['feats'][draw(st.integers(0, len(fs['feats']) - 1))]
                 val = f['settings'][-1][0] if f['settings'] else 7
                 fs['langs'].append(dict(tag=vl, settings=[[f['id'], val & 0xFFFF]]))
-        return dict(kind='padding', fspec=fs, tags=[t.hex() for t in short], scripts=[pad(t, b'\0') for t in short[:2]])
+        return dict(kind='padding', fspec=fs, tags=[t.hex() for t in short], scripts=[pad(t, b'\0') for t in short[:2]], silf_subtables=draw(st.sampled_from([1, 1, 2, 3])))
 
     def make(deco):
         @deco
